@@ -299,6 +299,19 @@ CHECKS.update({
     ),
 })
 
+CHECKS.update({
+    "C11": (
+        "generated (form, one-edit variant) pairs; oracle = signatures must differ whenever the pair is provably different (edit in data a compiler reads verbatim, or integrand values differ numerically under canonical terminal numbering), and must agree for the same recipe rebuilt with shifted counters",
+        "Hypothesis-generated forms with subdomain ids and rich metadata (floats, nested containers, numpy arrays up to 4000 "
+        "entries) and one edit per pair (literal, fixed index, operator, operand order, element family/degree/mapping, cell, "
+        "integral type, subdomain id, metadata value incl. single array entries and last digits): signatures must differ for "
+        "every provably different pair; the same recipe rebuilt on fresh objects after shifting all counters must keep its "
+        "signature.",
+        "Integrand edits count only when the interpreter finds different values with the k-th terminals of both forms identified.",
+        "4/C11",
+    ),
+})
+
 NOT_YET = {}
 
 
